@@ -243,7 +243,8 @@ struct Machine {
         if (c.sspace == 7 || c.dspace == 7) {
             // AHBM channel 1 serves this DMA channel; channel 0 and 2 are bound to other DMA channels
             ahbm.SetDmaChannel(0, (u16)(1u << ((c.channel + 1) & 7)));
-            ahbm.SetDmaChannel(1, (u16)(1u << c.channel));
+            // odd DMA channels share their AHBM channel with another DMA channel (a connection mask with two bits set)
+            ahbm.SetDmaChannel(1, (u16)((1u << c.channel) | ((c.channel & 1) ? (1u << ((c.channel + 5) & 7)) : 0)));
             ahbm.SetDmaChannel(2, (u16)(1u << ((c.channel + 2) & 7)));
             ahbm.SetUnitSize(1, c.unit);
             ahbm.SetBurstSize(1, c.burst);
